@@ -166,12 +166,12 @@ PROPS = {
         'must_observe': ['channel_pairs_compared', 'failure_points_injected', 'purity_checks', 'concurrent_renders_compared', 'channel_pairs_at_nesting_limits', 'includes_from_one_off_strings_compared'],
     },
     'C09': {
-        'scale': {'quick': 3, 'thorough': 1.5},
+        'scale': {'quick': 2, 'thorough': 1.5},
         'level': 'translation_validation',
         'technique': 'translation validation of the fusion pass: structural alignment of the pre- and post-pass listings of every chunk (hooks) with jump-target checking + differential rendering with the pass switched off',
         'claim': 'For every generated program every chunk (template bodies, blocks, components) is aligned instruction by instruction with its own pre-pass listing: only `LoadName(n) LoadAttr* [WriteTop]` may be merged, '
                  '`__tera_context` never, all other instructions identical and in order, every jump (Jump, PopJumpIfFalse, JumpIfFalseOrPop, JumpIfTrueOrPop, Iterate) must land on the image of its old target and no old target may lie inside a merged group. '
-                 'The same programs are compiled a second time with the pass skipped and every template, block and component is rendered under contexts where each path element is present/missing/none/of another kind: texts equal, Err iff Err. '
+                 'The same programs are compiled a second time with the pass skipped and every template, block and component is rendered under contexts where each path element is present/missing/none/of another kind/present but holding an undefined value: texts equal, Err iff Err. '
                  'Two generators: a path-heavy grammar placing variable paths next to every kind of jump, and the general program generator with path bias.',
         'note': 'the pre-pass listing is recorded by the hook inside Chunk::optimize of the same compilation (two compilations differ legitimately in the order of keyword-argument loads); the alignment trusts the Debug form of instructions',
         'rule': "one evaluation = one compilation or render; programs = accepted programs, disagreements_checked = differential renders; a cell = (jump kind, instruction kind at, after and before its target) for the structure and (generator family, ok/err) for the differential",
